@@ -110,12 +110,6 @@ func (c *Ctx) Pick(n int) int {
 	if n == 1 {
 		return 0
 	}
-	if c.pos == c.shardDepth {
-		c.claimPrefix()
-		if !c.owned {
-			panic(skipShard{})
-		}
-	}
 	if c.pos < len(c.path) {
 		if c.pos < c.replayLen && c.arity[c.pos] != n {
 			panic(EngineError{fmt.Sprintf("replay divergence in %s at depth %d: arity %d, recorded %d (nondeterminism leak)",
@@ -127,12 +121,25 @@ func (c *Ctx) Pick(n int) int {
 			panic(EngineError{fmt.Sprintf("replay divergence in %s at depth %d: choice %d out of range %d", c.scenario, c.pos, v, n)})
 		}
 		c.pos++
+		c.deal()
 		return v
 	}
 	c.path = append(c.path, 0)
 	c.arity = append(c.arity, n)
 	c.pos++
+	c.deal()
 	return 0
+}
+
+// deal assigns the execution to a worker as soon as its sharding prefix is complete;
+// executions that belong to another worker end here.
+func (c *Ctx) deal() {
+	if c.pos == c.shardDepth {
+		c.claimPrefix()
+		if !c.owned {
+			panic(skipShard{})
+		}
+	}
 }
 
 // Bool explores both answers.
@@ -274,4 +281,15 @@ func trimStack(st string) string {
 		}
 	}
 	return strings.Join(out, "\n")
+}
+
+// Barrier deals the execution to its worker now if the shard depth has been reached
+// (used before code that must not be abandoned half-way, e.g. a running scheduler).
+func (c *Ctx) Barrier() {
+	if c.pos >= c.shardDepth && c.shardDepth >= 0 {
+		c.claimPrefix()
+		if !c.owned {
+			panic(skipShard{})
+		}
+	}
 }
